@@ -24,3 +24,12 @@ Definition sch_update_next_check (now interval : Q) (offset : Z) : Q :=
 (* (next - now) in units of 0.1 ms, rounded down: what the correspondence run prints *)
 Definition sch_next_units (now interval : Q) (offset : Z) : Z :=
   Qfloor ((sch_update_next_check now interval offset - now) * 10000).
+
+(* ProcessCheckResult calls UpdateNextCheck AFTER it has stored the new state type and the result
+   (checkable-check.cpp: SetStateType 219-241, SetLastCheckResult 347/351, UpdateNextCheck 376): the
+   interval after an execution is the one of the POST-state, in which a result always exists - also
+   for the very first result of a never-checked checkable. *)
+Definition sch_interval_after (soft_after : bool) (ci ri : Q) : Q := sch_interval soft_after true ci ri.
+
+Definition sch_next_units_after (now : Q) (soft_after : bool) (ci ri : Q) (offset : Z) : Z :=
+  sch_next_units now (sch_interval_after soft_after ci ri) offset.
